@@ -58,6 +58,16 @@ GROUP_CALLS = ("mkstemp", "write", "close", "move")
 ACTS_OF = {"mkstemp": 1, "write": 2, "close": 1, "move": 1}
 
 
+def src_ns(sec):
+    """mtimes carry a sub-second part, as real file systems give them: a source stamped in second T is T.25 …"""
+    return sec * 1_000_000_000 + 250_000_000
+
+
+def mod_ns(sec):
+    """… a module file written in second T is T.31 (never older than a source of the same second in any reading)"""
+    return sec * 1_000_000_000 + 310_000_000
+
+
 def src_text(k):
     return "[[v%d]] ${7*6}\n" % k
 
@@ -285,7 +295,7 @@ class Recorder:
                     raise OSError(18, "injected move failure")
                 res = real_shutil.move(a, b, *r, **k)
                 if rec.clock is not None:
-                    real_os.utime(b, (rec.clock, rec.clock))
+                    real_os.utime(b, ns=(mod_ns(rec.clock), mod_ns(rec.clock)))
                 rec.rec("move", a, b, None)
                 if f == "ka":
                     rec.kill()
@@ -469,7 +479,7 @@ class Sandbox:
         self.ver += 1
         with open(self.src, "w") as f:
             f.write(src_text(self.ver))
-        os.utime(self.src, (mtime, mtime))
+        os.utime(self.src, ns=(src_ns(mtime), src_ns(mtime)))
 
     def mod_mtime(self):
         try:
@@ -496,7 +506,7 @@ class Sandbox:
         os.makedirs(os.path.dirname(self.mp), exist_ok=True)
         with open(self.mp, "wb") as f:
             f.write(data)
-        os.utime(self.mp, (mtime, mtime))
+        os.utime(self.mp, ns=(mod_ns(mtime), mod_ns(mtime)))
 
 
 # --------------------------------------------------------------------------- (a) histories, in-process
@@ -664,6 +674,8 @@ def run_history(ctx, hist, base, record_oracle=True):
             before = inspect_module(sb.mp, sb.src)
             before_mtime = sb.mod_mtime()
             before_bytes = open(sb.mp, "rb").read() if os.path.exists(sb.mp) else None
+            before_ino = os.stat(sb.mp).st_ino if os.path.exists(sb.mp) else None
+            before_ns = os.stat(sb.mp).st_mtime_ns if os.path.exists(sb.mp) else None
             del hook_calls[:]
             writer = None
             if hook:
@@ -676,7 +688,7 @@ def run_history(ctx, hist, base, record_oracle=True):
                         os.write(fd, source)
                         os.close(fd)
                         os.replace(name, path)
-                        os.utime(path, (_clock, _clock))
+                        os.utime(path, ns=(mod_ns(_clock), mod_ns(_clock)))
             rec.install()
             rec.begin_construct()
             res = None
@@ -704,14 +716,16 @@ def run_history(ctx, hist, base, record_oracle=True):
                 wrote = (len(hook_calls) if hook else rec.groups_begun) > 0
                 what = "module_writer called" if hook else "module written"
                 if wrote and not due:
-                    complaints.append({"site": "rewrite-when-not-due", "detail": "%s although the module (mtime %r, magic %r, generated from this file) is not older than the source (mtime %r)"
-                                       % (what, before_mtime, before[2], sb.src_mtime())})
+                    complaints.append({"site": "rewrite-when-not-due", "detail": "%s although the module (mtime %.2f, magic %r, generated from this file) is not older than the source (mtime %.2f)"
+                                       % (what, (before_ns or 0) / 1e9, before[2], os.stat(sb.src).st_mtime_ns / 1e9)})
                 if due and not wrote:
                     complaints.append({"site": "no-rewrite-when-due", "detail": "not %s although due: before=%r mtime %r, source mtime %r"
                                        % (what, before, before_mtime, sb.src_mtime())})
                 if not due and not wrote and (before_bytes != (open(sb.mp, "rb").read() if os.path.exists(sb.mp) else None)
-                                               or before_mtime != sb.mod_mtime()):
-                    complaints.append({"site": "reused-module-changed", "detail": "module file changed although it was reused"})
+                                               or before_mtime != sb.mod_mtime()
+                                               or before_ino != (os.stat(sb.mp).st_ino if os.path.exists(sb.mp) else None)
+                                               or before_ns != (os.stat(sb.mp).st_mtime_ns if os.path.exists(sb.mp) else None)):
+                    complaints.append({"site": "reused-module-changed", "detail": "module file (bytes / inode / mtime) changed although it was reused"})
                 if hook and any(c != (sb.ver, True) for c in res["hook_calls"]):
                     complaints.append({"site": "hook-arguments", "detail": "module_writer called with %r (expected the module of version %d and the module path)"
                                        % (res["hook_calls"], sb.ver)})
@@ -1034,23 +1048,34 @@ def worker_race(job):
 def worker_pyc(job):
     """finding F-C15-2: rewrite within one mtime second, same size, bytecode caching on"""
     from mako.template import Template
-    out = {"dont_write_bytecode": sys.dont_write_bytecode, "attempts": []}
+    sys.dont_write_bytecode = False
+    out = {"dont_write_bytecode": sys.dont_write_bytecode, "attempts": [], "hook": bool(job.get("hook"))}
+    writer = None
+    if job.get("hook"):
+        def writer(source, path):
+            # a user-supplied module_writer: atomic install; the file gets the time stamp of its "build" (fixed here,
+            # which forces the whole-second coincidence the default writer only meets by chance)
+            fd, name = tempfile.mkstemp(dir=os.path.dirname(path))
+            os.write(fd, source)
+            os.close(fd)
+            os.utime(name, (1500, 1500))
+            os.replace(name, path)
     for a in range(job["attempts"]):
         base = tempfile.mkdtemp(dir=job["root"])
         src = os.path.join(base, "t.html")
         md = os.path.join(base, "mods")
         mp = module_path(md, src)
-        while time.time() % 1 > 0.15:           # start early in a second
+        while not job.get("hook") and time.time() % 1 > 0.15:           # start early in a second
             time.sleep(0.005)
         open(src, "w").write(src_text(1))
         os.utime(src, (1000, 1000))
-        t1 = Template(filename=src, module_directory=md)
+        t1 = Template(filename=src, module_directory=md, module_writer=writer)
         r1 = version_of(t1.render())
         s1 = os.stat(mp)
         os.unlink(mp)                            # history: delete module, modify source (equal mtime), construct
         open(src, "w").write(src_text(2))
         os.utime(src, (1000, 1000))
-        t2 = Template(filename=src, module_directory=md)
+        t2 = Template(filename=src, module_directory=md, module_writer=writer)
         r2 = version_of(t2.render())
         s2 = os.stat(mp)
         on_disk = inspect_module(mp, src)
@@ -1105,7 +1130,7 @@ def prepare_state(base, state):
     old = None
     if state in ("stale", "stale-nodir"):
         Template(filename=sb.src, module_directory=sb.moddir)
-        os.utime(sb.mp, (1001, 1001))
+        os.utime(sb.mp, ns=(mod_ns(1001), mod_ns(1001)))
         old = 1
         sb.write_src(1005)                      # version 2, newer than the module
         if state == "stale-nodir":
@@ -1120,7 +1145,7 @@ def prepare_state(base, state):
         old = 1001
     elif state == "fresh":
         Template(filename=sb.src, module_directory=sb.moddir)   # up to date: to be reused
-        os.utime(sb.mp, (1003, 1003))
+        os.utime(sb.mp, ns=(mod_ns(1003), mod_ns(1003)))
         old = 1
     return {"src": sb.src, "moddir": sb.moddir, "cur": sb.ver, "old": old, "state": state, "clock": 1010,
             "group": 2 if state in ("magic", "otherfile") else 1}
@@ -1369,27 +1394,34 @@ def corr_concurrent(ctx, observed):
 
 def oracle_pyc(ctx, root):
     st = ctx.stream("oracle.same_second_bytecode", "oracle")
-    p = spawn({"mode": "pyc", "root": root, "attempts": 40}, bytecode=True)
-    rc, lines, err = finish(p, timeout=200)
-    st["cases"] += 1
-    if rc != 0 or not lines:
-        ctx.broke("oracle.same_second_bytecode:worker", "rc=%r %s" % (rc, err))
-        return
-    out = lines[0]
-    dec = out.get("decisive")
-    ctx.branch("pyc:attempts", len(out["attempts"]))
-    if dec is None:
-        ctx.notes.append("same-second probe: no attempt out of %d had equal second and equal size; not decisive" % len(out["attempts"]))
-        ctx.branch("pyc:not-decisive")
-        return
-    ctx.branch("pyc:decisive:second-render=v%s" % dec["second"])
-    ctx.sample({"stream": "oracle.same_second_bytecode", "observed": dec})
-    if dec["second"] != 2:
-        ctx.violation("same-second-rewrite-stale-pyc",
-                      {"kind": "pyc", "input": "construct; delete module; modify source (equal mtime, same length); construct - within one second, bytecode caching on"},
-                      "the module file was rewritten from source version 2 (on disk: %r) but the Template renders version %r "
-                      "(stale __pycache__ entry: same mtime second and size)" % (dec["on_disk"], dec["second"]),
-                      "oracle.same_second_bytecode")
+    procs = [(hook, spawn({"mode": "pyc", "root": root, "attempts": 40, "hook": hook}, bytecode=True)) for hook in (False, True)]
+    for hook, p in procs:
+        who = "module_writer" if hook else "default writer"
+        rc, lines, err = finish(p, timeout=200)
+        st["cases"] += 1
+        if rc != 0 or not lines:
+            ctx.broke("oracle.same_second_bytecode:worker", "rc=%r %s" % (rc, err))
+            continue
+        out = lines[0]
+        dec = out.get("decisive")
+        ctx.branch("pyc:%s:attempts" % who, len(out["attempts"]))
+        if out.get("dont_write_bytecode"):
+            ctx.broke("oracle.same_second_bytecode:bytecode-off", "the probe could not enable bytecode writing")
+        if dec is None:
+            ctx.notes.append("same-second probe (%s): no attempt out of %d had equal second and equal size; not decisive"
+                             % (who, len(out["attempts"])))
+            ctx.branch("pyc:%s:not-decisive" % who)
+            continue
+        ctx.branch("pyc:%s:decisive:second-render=v%s" % (who, dec["second"]))
+        ctx.sample({"stream": "oracle.same_second_bytecode", "writer": who, "observed": dec})
+        if dec["second"] != 2:
+            ctx.violation("same-second-rewrite-stale-pyc",
+                          {"kind": "pyc", "writer": who,
+                           "input": "construct; delete module; modify source (equal mtime, same length); construct - within one "
+                                    "second, bytecode caching on, module written by the %s" % who},
+                          "the module file was rewritten from source version 2 (on disk: %r) but the Template renders version %r "
+                          "(stale __pycache__ entry: same mtime second and size)" % (dec["on_disk"], dec["second"]),
+                          "oracle.same_second_bytecode")
 
 
 # --------------------------------------------------------------------------- entry points
